@@ -88,6 +88,20 @@ def main():
                 x, r, p, _, _, gamma = ref_step(A, Pm, x, r, p, gamma)
             if not close(xs, x, 1e-7):
                 bad = ("run_batched_cg", str(np.asarray(xs)[:, -1][:3]), str(x[:, -1][:3]))
+            else:
+                # stopping contract, per column: relative to ||b_j||
+                tol = 1e-6
+                m = 80
+                Qm, _ = np.linalg.qr(rnd(m, m))
+                A2 = (Qm * np.logspace(0, 4, m)) @ Qm.conj().T
+                A2 = (A2 + A2.conj().T) / 2
+                b2 = rnd(m, 3) * np.array([1e-4, 1.0, 1e4])
+                from cola.ops import I_like
+                A2op = cola.PSD(Dense(A2))
+                xs2, rs2, kk2, _ = cg.run_batched_cg(A2op, b2, 0 * b2, 5000, tol, I_like(A2op), pbar=False)
+                rel = np.linalg.norm(b2 - A2 @ xs2, axis=0) / np.linalg.norm(b2, axis=0)
+                if np.any(rel > 50 * tol):
+                    bad = ("run_batched_cg stopping contract per column", f"relative residuals {rel}", f"each <= {50 * tol:.1e} (tol*(1+|r0|/|b|) = {2 * tol:.1e})")
         if bad:
             print(json.dumps(dict(replayed=True, failing_input_found=True, trial=trial, clause=bad[0], observed=bad[1], expected=bad[2],
                                   input=f"n={n}, K={K} columns (norms spread over 6 decades), dtype={np.dtype(dt).name}, SPD A and preconditioner, x0 random",
